@@ -53,7 +53,7 @@ TABLE = {
            ("RejectProofs.v", ["find_entity_first", "ok_refs_defined_first"], "Local Notation token := Tokenizer.token.")]),
  "C08": dict(
    intro="C08 -- ill-formed documents are rejected.  (1) the three character classes are the Fifth Edition\n   productions for every scalar value (tables regenerated from the source on every run);\n   (2) local rejection theorems, 'accepted implies constraint': comment bodies, ']]>' in text, misplaced\n   declaration, '<' in attribute values, every consumed character is a Char, end tags match the open\n   element and cannot close an element opened outside the current entity, reserved prefixes and URIs,\n   entity references are declared (first declaration wins), and the document-level token shape: only\n   comments / PIs (and entity declarations) before the root, at most one root element, only\n   comments / PIs after it.  (3) Soundness against the grammar on the byte fragment that Spec/Cst.v covers\n   (in_fragment, Proofs/CstSound.v: printable ASCII / TAB / LF, no '&', no ':', no '<!D' '<![' '<?xml' 'xmlns';\n   attrs_raw: no attribute value was normalised): every ACCEPTED input is the rendering of a well-formed abstract\n   document (parse_sound_fragment) -- the parser accepts nothing outside the grammar there -- and its tree is that\n   document's meaning (parse_sound_and_complete).  (4) Truncation: for EVERY accepted document (DOCTYPE and entity expansion included) and\n   every cut (on a character boundary) before the end of its root element, the prefix is rejected\n   (truncation_rejected; root_element_end d and firstn_N are defined in Proofs/TruncMain.v).  (5) Soundness over\n   Unicode (in_fragment_u, Proofs/CstSoundU.v: valid UTF-8, no CR, '&', ':', '<!D', '<![', '<?xml', 'xmlns', no leading\n   BOM): every accepted input is the rendering of a well-formed document of Spec/CstU.v (parse_sound_fragment_u).\n   (6) Soundness with references and CDATA (in_fragment_t, Proofs/CstSoundT.v: printable ASCII / TAB / LF, '&' and\n   '<![' allowed, numeric references denote scalar values -- the documented U+FFFD leniency excluded): every accepted input\n   is the rendering of a well-formed document of Spec/CstText.v, with NO condition on the result (parse_sound_fragment_t).\n   (7) Namespace constraints at document level (Spec/CstNs.v): a syntactically well-formed document that violates one of\n   N1-N7 (undeclared prefix, duplicate declaration, duplicate attribute by expanded name, misuse of xml / xmlns prefixes\n   and URIs) is rejected with one of the namespace error variants (ns_violation_rejected).  (8) Soundness WITH NAMESPACES\n   (in_fragment_n, Proofs/CstSoundN.v: valid UTF-8, qualified names and xmlns declarations allowed, references and CDATA\n   allowed; no CR, DOCTYPE, XML declaration, BOM; numeric references scalar; no leading-colon names and no colon in PI\n   targets -- two leniencies, each with its Example): every accepted input is the rendering of a well-formed document of\n   Spec/CstFull.v stage S2, hence satisfies N1-N7 on normalised URIs; the resource bounds of the completeness theorem\n   follow from acceptance (parse_sound_fragment_n_res), so the parsed tree IS the document's meaning\n   (parse_sound_and_complete_n).  (9) Soundness WITH THE PROLOG AND ENTITIES (in_fragment_p, Proofs/CstSoundP.v: BOM, XML\n   declaration, DOCTYPE with every kind of declaration, character-data general entities declared AND used; conditions P1-P8\n   on the bytes, each leniency with its Example): every accepted input is the rendering of a well-formed document of\n   Spec/CstFullS5.v (parse_sound_fragment_p) -- this covers misplaced / repeated XML declarations, undefined references,\n   recursion, '<' reaching an attribute value through an entity, and the DTD syntax.",
-   imports=["From RX.Spec Require Chars.", "From RX.Spec Require Cst.", "From RX.Proofs Require Import CharTablesProofs RejectProofs WfParseTok WfParseChars WfParse CstSound CstSoundDoc CstSoundCor TruncMain TruncDtdMain CstSoundU CstSoundUDoc CstSoundUCor CstSoundT CstSoundTDoc CstSoundTCor NsRejDefs NsRejBuild NsRejMain CstNsView CstFullMain CstSoundN CstSoundNDoc CstSoundNCor.", "From RX.Spec Require CstU CstText CstNs CstFull CstFullS5.", "From RX.Proofs Require CstSoundP CstSoundPRDoc CstSoundPRCor.", "From RX.Spec Require CstFullS4 CstFullS6.", "From RX.Proofs Require KnownFindingsMore KnownFindingsD21 CstSound6P CstSound6 CstSound6U CstSound6uCor CstSound6a CstSound6aFinal CstFullS6Main CstFullRejSem CstFullRejTrace CstFullRejDoc CstFullRejMain CstFullNsRejMain."],
+   imports=["From RX.Spec Require Chars.", "From RX.Spec Require Cst.", "From RX.Proofs Require Import CharTablesProofs RejectProofs WfParseTok WfParseChars WfParse CstSound CstSoundDoc CstSoundCor TruncMain TruncDtdMain CstSoundU CstSoundUDoc CstSoundUCor CstSoundT CstSoundTDoc CstSoundTCor NsRejDefs NsRejBuild NsRejMain CstNsView CstFullMain CstSoundN CstSoundNDoc CstSoundNCor.", "From RX.Spec Require CstU CstText CstNs CstFull CstFullS5.", "From RX.Proofs Require CstSoundP CstSoundPRDoc CstSoundPRCor.", "From RX.Spec Require CstFullS4 CstFullS6.", "From RX.Proofs Require KnownFindingsMore KnownFindingsD21 CstSound6P CstSound6 CstSound6U CstSound6uCor CstSound6a CstSound6aFinal CstSound6bFinal CstSound6rCor CstSound6c CstSound6cFinal CstSound6dFinal CstSound6eCor CstFullS6Main CstFullRejSem CstFullRejTrace CstFullRejDoc CstFullRejMain CstFullNsRejMain."],
    groups=[("CharTablesProofs.v", ["char_tables_conform", "byte_tables_conform", "byte_space_conform", "byte_char_agree"]),
            ("RejectProofs.v", ["ok_comment_body", "ok_text_no_cdata_end", "ok_pi_not_declaration", "ok_no_lt_in_attr", "skip_chars_only_chars",
                                "skip_chars_only_chars_text", "consume_chars_only_chars", "ok_tags_balanced", "ok_reserved_names",
@@ -70,6 +70,11 @@ TABLE = {
            ("CstSoundPRCor.v", ["parse_sound_and_complete_p"], "Import RX.Spec.CstFull. Import RX.Spec.CstFullS5. Import RX.Proofs.CstNsView. Import RX.Proofs.CstSoundP. Import RX.Proofs.CstSoundPRCor."),
            ("CstSound6P.v", ["parse_sound_fragment_6_on_p", "parse_sound_and_complete_6_on_p"], "Import RX.Spec.CstFull. Import RX.Spec.CstFullS5. Import RX.Spec.CstFullS6. Import RX.Proofs.CstNsView. Import RX.Proofs.CstSoundP. Import RX.Proofs.CstSound6P."),
            ("CstSound6uCor.v", ["parse_sound_fragment_6u", "parse_sound_and_complete_6u"], "Import RX.Spec.CstFull. Import RX.Spec.CstFullS5. Import RX.Spec.CstFullS6. Import RX.Proofs.CstNsView. Import RX.Proofs.CstSoundP. Import RX.Proofs.CstSound6. Import RX.Proofs.CstSound6U. Import RX.Proofs.CstSound6uCor."),
+           ("CstSound6bFinal.v", ["parse_sound_fragment_6a"], "Import RX.Spec.CstFull. Import RX.Spec.CstFullS5. Import RX.Spec.CstFullS6. Import RX.Proofs.CstSoundP. Import RX.Proofs.CstSound6. Import RX.Proofs.CstSound6U. Import RX.Proofs.CstSound6a. Import RX.Proofs.CstSound6bFinal."),
+           ("CstSound6rCor.v", ["parse_sound_fragment_6a_res", "parse_sound_and_complete_6a", "parse_sound_and_complete_6a_nl", "parse_view_of_witness"], "Import RX.Spec.CstFull. Import RX.Spec.CstFullS5. Import RX.Spec.CstFullS6. Import RX.Proofs.CstNsView. Import RX.Proofs.CstSoundP. Import RX.Proofs.CstSound6. Import RX.Proofs.CstSound6U. Import RX.Proofs.CstSound6a. Import RX.Proofs.CstSound6rCor."),
+           ("CstSound6dFinal.v", ["parse_sound_fragment_6"], "Import RX.Spec.CstFull. Import RX.Spec.CstFullS5. Import RX.Spec.CstFullS6. Import RX.Proofs.CstNsView. Import RX.Proofs.CstSoundP. Import RX.Proofs.CstSound6. Import RX.Proofs.CstSound6U. Import RX.Proofs.CstSound6dFinal."),
+           ("CstSound6eCor.v", ["parse_sound_fragment_6_res", "parse_sound_and_complete_6", "parse_sound_and_complete_6_nl"], "Import RX.Spec.CstFull. Import RX.Spec.CstFullS5. Import RX.Spec.CstFullS6. Import RX.Proofs.CstNsView. Import RX.Proofs.CstSoundP. Import RX.Proofs.CstSound6. Import RX.Proofs.CstSound6U. Import RX.Proofs.CstSound6eCor."),
+           ("CstSound6cFinal.v", ["parse_sound_fragment_6c"], "Import RX.Spec.CstFull. Import RX.Spec.CstFullS5. Import RX.Spec.CstFullS6. Import RX.Proofs.CstSoundP. Import RX.Proofs.CstSound6. Import RX.Proofs.CstSound6U. Import RX.Proofs.CstSound6a. Import RX.Proofs.CstSound6c. Import RX.Proofs.CstSound6cFinal."),
            ("CstSound6aFinal.v", ["parse_sound_fragment_6a1"], "Import RX.Spec.CstFull. Import RX.Spec.CstFullS5. Import RX.Spec.CstFullS6. Import RX.Proofs.CstSoundP. Import RX.Proofs.CstSound6. Import RX.Proofs.CstSound6U. Import RX.Proofs.CstSound6a. Import RX.Proofs.CstSound6aFinal."),
            ("KnownFindingsMore.v", ["d27_refuted", "d28_refuted", "d29_refuted"], "Import RX.Proofs.CstNsView. Import RX.Proofs.KnownFindingsMore.", "CHECK"),
            ("KnownFindingsD21.v", ["d21_refuted", "d21_wf_for_spec", "d21_outside_class", "d21_outside_class_variant"], "Import RX.Spec.CstNs. Import RX.Proofs.NsRejDefs. Import RX.Proofs.NsRejBuild. Import RX.Proofs.NsRejMain. Import RX.Proofs.KnownFindingsD21."),
@@ -77,11 +82,13 @@ TABLE = {
            ("CstFullNsRejMain.v", ["ns_violation_rejected_full_s6"], "Import RX.Spec.CstFull. Import RX.Spec.CstFullS4. Import RX.Spec.CstFullS6. Import RX.Proofs.CstNsView. Import RX.Proofs.CstFullS6Main. Import RX.Proofs.NsRejDefs. Import RX.Proofs.NsRejBuild. Import RX.Proofs.CstFullRejSem. Import RX.Proofs.CstFullRejTrace. Import RX.Proofs.CstFullRejDoc. Import RX.Proofs.CstFullRejMain. Import RX.Proofs.CstFullNsRejMain.")]),
  "C03": dict(
    intro="C03 -- elements, comments and PIs mirror the document's logical structure.  Lexer post-conditions\n   (with a token recorder as callback): a comment token's text is exactly the source between '<!--' and\n   '-->'; a PI's target and value are the source strings (value without leading whitespace, None when\n   empty); CDATA / text tokens are their source slices; the DOCTYPE and the prolog / epilog deliver only\n   comments, PIs (and entity declarations); a start tag delivers ElementStart, attributes, one ElementEnd.\n   The XML declaration has no callback at all.  Document-level token shape: Proofs/RejectProofs.v.\n   Completeness on the fragment of Spec/Cst.v (ASCII names and content, no DOCTYPE, references, namespaces, CR): every\n   rendering of a well-formed abstract document -- with any layout choices: whitespace in tags, quote style,\n   empty-element syntax, prolog / epilog comments and PIs -- parses to exactly its meaning (view = sem:\n   kinds, names, attributes in order with values, comment text, PI target / value, text, children counts), so two\n   renderings with the same meaning give the same tree (layout_insensitive).  view is defined in Proofs/CstMain.v.\n   The same over Unicode (Spec/CstU.v: names, values, text, comments, PIs are lists of scalar values in the 5th-edition\n   Name / Char classes, rendered in UTF-8): parse_render_sem_u, layout_insensitive_u, render_valid_utf8.\n   The largest fragment (Spec/CstFull.v stage S3 = Unicode + namespaces + pieces + character-data entities, pinned under\n   C06) extended by the whole PROLOG (Spec/CstFullS5.v): byte order mark, XML declaration, DOCTYPE with external id and an\n   internal subset holding every kind of declaration (general / parameter / external / unparsed entities, ELEMENT /\n   ATTLIST / NOTATION, comments and PIs -- which become nodes under the Root), CR in markup whitespace:\n   parse_render_sem_full_s5 and prolog_insensitive_full_s5 (same meaning => same tree, whatever the prolog).\n   THE CAPSTONE (Spec/CstFullS6.v): S4's entities (character data or markup with qualified names, resolved at the place\n   of reference) inside S5's prolog, CR in markup whitespace everywhere -- ONE statement for the whole supported subset:\n   parse_render_sem_full_s6; same meaning => same tree whatever the distribution over entities, the prolog and the layout\n   (hoist_prolog_insensitive_full_s6); S4 and S5 embed with the same rendering and meaning (s4_in_s6, s5_in_s6), hence\n   so do S1..S3.  What S6 still excludes is listed in the spec files: CR inside comment / PI bodies (admitted by S7), '%' and character references to TAB / LF / CR / '&' / '<' inside entity literals, colons\n   in DOCTYPE / entity names, the CR LF proviso and D15.",
-   imports=["From RX.Spec Require Cst.", "From RX.Spec Require CstU CstNs CstFull CstFullS5.", "From RX.Proofs Require Import LexerProofs RejectProofs CstMain CstUMain.", "From RX.Proofs Require CstNsView CstFullMain CstFullS5 CstFullS6Main CstFullS6Embed5.", "From RX.Spec Require CstFullS4 CstFullS6.", "From RX.Proofs Require ApiViewAcc ApiView ApiViewProofs ApiViewCapstone.", "From RX.Spec Require CstFullS7 CstFullS8 CstFullS9.", "From RX.Proofs Require CstFullS7Main CstFullS8Main CstFullS9Main."],
+   imports=["From RX.Spec Require Cst.", "From RX.Spec Require CstU CstNs CstFull CstFullS5.", "From RX.Proofs Require Import LexerProofs RejectProofs CstMain CstUMain.", "From RX.Proofs Require CstNsView CstFullMain CstFullS5 CstFullS6Main CstFullS6Embed5.", "From RX.Spec Require CstFullS4 CstFullS6.", "From RX.Proofs Require ApiViewAcc ApiView ApiViewProofs ApiViewCapstone.", "From RX.Spec Require CstFullS7 CstFullS8 CstFullS9 CstFullS10 CstFullS11.", "From RX.Proofs Require CstFullS7Main CstFullS8Main CstFullS9Main CstFullS10Main CstFullS11Main."],
    groups=[("CstMain.v", ["parse_render_sem", "layout_insensitive"]),
            ("ApiViewCapstone.v", ["parse_render_sem_full_s6_api", "hoist_prolog_insensitive_full_s6_api"], "Import RX.Spec.CstFull. Import RX.Spec.CstFullS6. Import RX.Proofs.ApiView. Import RX.Proofs.ApiViewProofs. Import RX.Proofs.ApiViewCapstone."),
            ("ApiViewProofs.v", ["api_view_agrees", "api_view_defined"], "Import RX.Proofs.ApiViewAcc. Import RX.Proofs.ApiView. Import RX.Proofs.ApiViewProofs."),
            ("CstFullS7Main.v", ["parse_render_sem_full_s7", "parse_render_sem_full_s7_api", "s6_in_s7"], "Import RX.Spec.CstFull. Import RX.Spec.CstFullS6. Import RX.Spec.CstFullS7. Import RX.Proofs.CstNsView. Import RX.Proofs.ApiView. Import RX.Proofs.CstFullS7Main."),
+           ("CstFullS11Main.v", ["parse_render_sem_full_s11", "parse_render_sem_full_s11_api", "s10_in_s11"], "Import RX.Spec.CstFull. Import RX.Spec.CstFullS6. Import RX.Spec.CstFullS10. Import RX.Spec.CstFullS11. Import RX.Proofs.CstNsView. Import RX.Proofs.ApiView. Import RX.Proofs.CstFullS11Main."),
+           ("CstFullS10Main.v", ["parse_render_sem_full_s10", "parse_render_sem_full_s10_api", "s9_in_s10"], "Import RX.Spec.CstFull. Import RX.Spec.CstFullS6. Import RX.Spec.CstFullS9. Import RX.Spec.CstFullS10. Import RX.Proofs.CstNsView. Import RX.Proofs.ApiView. Import RX.Proofs.CstFullS10Main."),
            ("CstFullS9Main.v", ["parse_render_sem_full_s9", "s8_in_s9"], "Import RX.Spec.CstFull. Import RX.Spec.CstFullS6. Import RX.Spec.CstFullS8. Import RX.Spec.CstFullS9. Import RX.Proofs.CstNsView. Import RX.Proofs.ApiView. Import RX.Proofs.CstFullS9Main."),
            ("CstFullS8Main.v", ["parse_render_sem_full_s8", "s7_in_s8"], "Import RX.Spec.CstFull. Import RX.Spec.CstFullS6. Import RX.Spec.CstFullS7. Import RX.Spec.CstFullS8. Import RX.Proofs.CstNsView. Import RX.Proofs.ApiView. Import RX.Proofs.CstFullS8Main."),
            ("CstUMain.v", ["render_valid_utf8", "parse_render_sem_u", "layout_insensitive_u"]),
@@ -156,7 +163,7 @@ TABLE = {
                                "lookup_prefix_xml", "lookup_prefix_first", "attr_eqb_spec"])]),
  "C13": dict(
    intro="C13 -- source ranges are valid and designate the construct they belong to.  For every parsed document\n   (entity-expanded nodes included): every node and attribute range is a valid slice of the input (start <=\n   end <= len, char boundaries), the root range is the whole input, every attribute lies strictly inside its\n   element's range with its qname sub-range inside it; for documents without a DOCTYPE a child's range lies\n   within its parent's and a node starts after its previous sibling ends.  Shape clauses, from the lexer\n   post-conditions: the range of a comment token is exactly '<!--' text '-->', of a PI token '<?' target ...\n   '?>', a start tag runs from '<' to its '>' and the name follows the '<', an end tag from '</' to '>';\n   text / CDATA ranges are the token's source.  Attribute sub-ranges (below the documented saturation limits):\n   the qname sub-range ends where the local name ends, the value sub-range is delimited by the same quote on\n   both sides, ends one byte before the attribute's end, equals a borrowed value's slice, and only whitespace and\n   one '=' separate it from the qname.  Shift: prepending whitespace to an input that starts with neither a BOM nor\n   an XML declaration yields the same document with every non-root range moved by exactly that length.\n   Whole documents on the fragment of Spec/Cst.v: the range of every node is exactly the span of its construct in\n   the rendering (spans c, CstRangeDefs.v: an element from its '<' to the '>' of its end or empty-element tag), the\n   root range is the whole input, attribute range / qname / value sub-ranges are exactly the written name-to-quote,\n   name and between-the-quotes spans (attr_spans c); hence the slice shapes C13 names (EXTRA below).",
-   imports=["From RX.Proofs Require Import LexerProofs NoPanicTokenizer RangeTokenizer RangeArena RangeInv RangeBuilder RangeParse RangeAttrLocal RangeAttrTok RangeAttrParse RangeShiftBase RangeShiftStream RangeShiftTokenizer RangeShiftBuilder RangeShiftParse RangeShiftFinal CstRangeDefs CstRangeMain CstRangeTDefs CstRangeTMain CstEntDoc CstRangeEDefs CstRangeEMain CstRangeEValid.", "From RX.Spec Require Cst CstText CstEnt CstFull CstFullS5.", "From RX.Proofs Require CstRangeFDefs CstRangeFS2 CstRangeGDefs CstRangeGS3 CstRangeG5Defs CstRangeG5.", "From RX.Spec Require CstFullS4 CstFullS6.", "From RX.Proofs Require CstRangeG6Defs CstRangeG6 ErrShiftSubFinal ErrShiftProlog."],
+   imports=["From RX.Proofs Require Import LexerProofs NoPanicTokenizer RangeTokenizer RangeArena RangeInv RangeBuilder RangeParse RangeAttrLocal RangeAttrTok RangeAttrParse RangeShiftBase RangeShiftStream RangeShiftTokenizer RangeShiftBuilder RangeShiftParse RangeShiftFinal CstRangeDefs CstRangeMain CstRangeTDefs CstRangeTMain CstEntDoc CstRangeEDefs CstRangeEMain CstRangeEValid.", "From RX.Spec Require Cst CstText CstEnt CstFull CstFullS5.", "From RX.Proofs Require CstRangeFDefs CstRangeFS2 CstRangeGDefs CstRangeGS3 CstRangeG5Defs CstRangeG5.", "From RX.Spec Require CstFullS4 CstFullS6.", "From RX.Proofs Require CstRangeG6Defs CstRangeG6 ErrShiftSubFinal ErrShiftProlog.", "From RX.Spec Require CstFullS10.", "From RX.Proofs Require CstRangeG10."],
    groups=[("RangeParse.v", ["parse_ranges_valid", "parse_attr_ranges_inside", "parse_ranges_nest", "parse_ranges_siblings"]),
            ("RangeAttrParse.v", ["parse_attr_subranges"]), ("RangeShiftFinal.v", ["parse_shift_whitespace_partial"]),
            ("CstRangeMain.v", ["parse_render_ranges", "parse_render_attr_ranges"]),
@@ -165,6 +172,7 @@ TABLE = {
            ("CstRangeFS2.v", ["parse_render_ranges_f2", "parse_render_attr_ranges_f2"], "Import RX.Spec.CstFull. Import RX.Proofs.CstRangeFDefs. Import RX.Proofs.CstRangeFS2."),
            ("CstRangeGS3.v", ["parse_render_ranges_f3"], "Import RX.Spec.CstFull. Import RX.Proofs.CstRangeFDefs. Import RX.Proofs.CstRangeGDefs. Import RX.Proofs.CstRangeGS3."),
            ("CstRangeG5.v", ["parse_render_ranges_f5", "parse_render_attr_ranges_f5"], "Import RX.Spec.CstFull. Import RX.Spec.CstFullS5. Import RX.Proofs.CstRangeFDefs. Import RX.Proofs.CstRangeFS2. Import RX.Proofs.CstRangeG5Defs. Import RX.Proofs.CstRangeG5."),
+           ("CstRangeG10.v", ["parse_render_ranges_f10", "parse_render_attr_ranges_f10"], "Import RX.Spec.CstFull. Import RX.Spec.CstFullS4. Import RX.Spec.CstFullS6. Import RX.Spec.CstFullS10. Import RX.Proofs.CstRangeFDefs. Import RX.Proofs.CstRangeFS2. Import RX.Proofs.CstRangeG6Defs. Import RX.Proofs.CstRangeG10."),
            ("CstRangeG6.v", ["parse_render_ranges_f6", "parse_render_attr_ranges_f6"], "Import RX.Spec.CstFull. Import RX.Spec.CstFullS4. Import RX.Spec.CstFullS6. Import RX.Proofs.CstRangeFDefs. Import RX.Proofs.CstRangeFS2. Import RX.Proofs.CstRangeG6Defs. Import RX.Proofs.CstRangeG6."),
            ("ErrShiftProlog.v", ["ranges_move_with_prolog_whitespace"], "Import RX.Proofs.ErrShiftSubFinal. Import RX.Proofs.ErrShiftProlog."),
            ("RangeTokenizer.v", ["tokenizer_token_ranges"], "Local Notation token := Tokenizer.token."),
@@ -198,7 +206,7 @@ TABLE = {
            ("CstFullS5.v", ["dtd_refused_full", "no_dtd_any_option"], "Import RX.Spec.CstFull. Import RX.Spec.CstFullS5. Import RX.Proofs.CstNsView. Import RX.Proofs.CstFullMain. Import RX.Proofs.CstFullS5.")]),
  "C18": dict(
    intro="C18 -- borrowed strings are slices of the input; undecoded content is not copied.  In the model a\n   borrowed string is an offset pair; every such pair in a parsed document is a valid slice of the input\n   (start <= end <= len, both on char boundaries), the only 'static strings are those of the xml\n   namespace, and the fast paths keep text / CDATA / attribute values borrowed.  Whole documents on the fragment of\n   Spec/Cst.v (parse_render_storage): every Text node and every attribute value is stored Borrowed with exactly the\n   span where it is written, and every name (tag, attribute, PI target, PI value, comment text) is the slice of its\n   written occurrence (shapes c / attr_spans c, CstRangeDefs.v).  On the fragment of Spec/CstText.v\n   (parse_render_storage_t; tshapes / tattr_spans in CstRangeTDefs.v): a run that is ONE literal without CR is Borrowed\n   with exactly its span; a run that is ONE CDATA section without CR is Borrowed with the span of its content; every other\n   run is Owned with the decoded text; an attribute value that is empty or one literal without TAB / LF / CR is Borrowed\n   with the span between the quotes, every other is Owned with the normalised value -- undecoded content is never copied.",
-   imports=["From RX.Spec Require Cst.", "From RX.Spec Require CstText CstEnt.", "From RX.Proofs Require Import BorrowLocal BorrowTokenizer BorrowParse TextMerge CstRangeDefs CstRangeMain CstRangeTDefs CstRangeTMain CstEntDoc CstRangeEDefs CstRangeEMain.", "From RX.Spec Require CstFull CstFullS5.", "From RX.Proofs Require CstRangeFDefs CstRangeFS2 CstRangeG5Defs CstRangeG5.", "From RX.Spec Require CstFullS4 CstFullS6.", "From RX.Proofs Require CstRangeG6Defs CstRangeG6."],
+   imports=["From RX.Spec Require Cst.", "From RX.Spec Require CstText CstEnt.", "From RX.Proofs Require Import BorrowLocal BorrowTokenizer BorrowParse TextMerge CstRangeDefs CstRangeMain CstRangeTDefs CstRangeTMain CstEntDoc CstRangeEDefs CstRangeEMain.", "From RX.Spec Require CstFull CstFullS5.", "From RX.Proofs Require CstRangeFDefs CstRangeFS2 CstRangeG5Defs CstRangeG5.", "From RX.Spec Require CstFullS4 CstFullS6.", "From RX.Proofs Require CstRangeG6Defs CstRangeG6.", "From RX.Spec Require CstFullS10.", "From RX.Proofs Require CstRangeG10."],
    groups=[("BorrowLocal.v", ["mk_slice_valid", "fast_path_text", "fast_path_attr", "fast_path_cdata"]),
            ("BorrowTokenizer.v", ["tokenizer_tokens_ok", "tokenizer_content_tokens_ok"], "Local Notation token := Tokenizer.token."),
            ("BorrowParse.v", ["token_preserves_borrows", "parse_borrows_ok", "static_only_xml"]),
@@ -208,6 +216,7 @@ TABLE = {
            ("CstRangeEMain.v", ["parse_render_storage_e"], "Module E := CstEnt."),
            ("CstRangeFS2.v", ["parse_render_storage_f2"], "Import RX.Spec.CstFull. Import RX.Proofs.CstRangeFDefs. Import RX.Proofs.CstRangeFS2."),
            ("CstRangeG5.v", ["parse_render_storage_f5"], "Import RX.Spec.CstFull. Import RX.Spec.CstFullS5. Import RX.Proofs.CstRangeFDefs. Import RX.Proofs.CstRangeFS2. Import RX.Proofs.CstRangeG5Defs. Import RX.Proofs.CstRangeG5."),
+           ("CstRangeG10.v", ["parse_render_storage_f10"], "Import RX.Spec.CstFull. Import RX.Spec.CstFullS4. Import RX.Spec.CstFullS6. Import RX.Spec.CstFullS10. Import RX.Proofs.CstRangeFDefs. Import RX.Proofs.CstRangeFS2. Import RX.Proofs.CstRangeG6Defs. Import RX.Proofs.CstRangeG10."),
            ("CstRangeG6.v", ["parse_render_storage_f6"], "Import RX.Spec.CstFull. Import RX.Spec.CstFullS4. Import RX.Spec.CstFullS6. Import RX.Proofs.CstRangeFDefs. Import RX.Proofs.CstRangeFS2. Import RX.Proofs.CstRangeG6Defs. Import RX.Proofs.CstRangeG6.")]),
  "C19": dict(
    intro="C19 -- the `positions` feature only adds API surface: the fields it removes (NodeData.range,\n   AttributeData.range / qname_len / eq_len) are write-only for the parser.  A builder that strips them after\n   every token produces exactly the stripped document and the same errors, for the tokenizer run and for the\n   whole parse (parse_np_correct).  Determinism itself holds of the model by construction (it is a function)\n   and is decided for the code by the feature-set / repetition correspondence.  The premise -- which fields and\n   statements the features gate -- is regenerated from every cfg(feature = ..) attribute of the source (GeneratedFeatures.v)\n   and compared with what strip_* erases (Proofs/FeatureGates.v).",
